@@ -6,6 +6,7 @@ import (
 	"encoding/hex"
 	"fmt"
 	"io"
+	mrand "math/rand"
 	"net/http"
 	"net/http/httptest"
 	"os"
@@ -131,6 +132,75 @@ func signVerifyVariants(rep *Report, env *provEnv, seed uint64) {
 			rep.Issue(Issue{Kind: "monitor", Fingerprint: "C17:signed-chart-rejected", What: "a chart signed and then verified with the matching public key is rejected: " + verr.Error(), Case: cs, Seed: seed, Index: 3000 + i})
 		}
 		os.RemoveAll(dir)
+	}
+}
+
+// bigArchiveCase: the digest covers the whole archive, however large.  A chart of ~9 MiB (three incompressible files
+// of 3 MiB) is signed; the untouched archive verifies and the reported file hash is the SHA-256 of its bytes; a bit
+// flipped near the end, at 5 MiB + 10, at 1000, a truncated tail and appended bytes are all rejected.
+func bigArchiveCase(rep *Report, env *provEnv, seed uint64) {
+	dir := filepath.Join(env.dir, "big")
+	os.MkdirAll(dir, 0o755)
+	defer os.RemoveAll(dir)
+	rnd := mrand.New(mrand.NewSource(int64(seed) + 17))
+	ch := &chart.Chart{Metadata: &chart.Metadata{APIVersion: "v2", Name: "bigchart", Version: "0.1.0"},
+		Templates: []*chart.File{{Name: "templates/cm.yaml", Data: []byte("kind: ConfigMap\n")}}}
+	for i := 0; i < 3; i++ {
+		b := make([]byte, 3<<20)
+		rnd.Read(b)
+		ch.Files = append(ch.Files, &chart.File{Name: fmt.Sprintf("files/blob-%d.bin", i), Data: b})
+	}
+	p, err := chartutil.Save(ch, dir)
+	if err != nil {
+		rep.H("big:save-error")
+		return
+	}
+	orig, _ := os.ReadFile(p)
+	s, err := provenance.NewFromFiles(env.sec, env.pub)
+	if err != nil {
+		return
+	}
+	sig, err := s.ClearSign(p)
+	if err != nil {
+		rep.H("big:sign-error")
+		return
+	}
+	os.WriteFile(p+".prov", []byte(sig), 0o644)
+	flip := func(at int) []byte { b := append([]byte{}, orig...); b[at] ^= 0x01; return b }
+	type mut struct {
+		name string
+		data []byte
+	}
+	muts := []mut{{"untouched", orig}, {"flip-near-end", flip(len(orig) - 100)}, {"flip-at-5MiB+10", flip(5<<20 + 10)}, {"flip-at-1000", flip(1000)},
+		{"truncated-1000", orig[:len(orig)-1000]}, {"appended-64", append(append([]byte{}, orig...), make([]byte, 64)...)}}
+	for i, mu := range muts {
+		cs := map[string]any{"kind": "big-archive", "mutation": mu.name, "archiveLen": len(orig)}
+		rep.Count(cs, true)
+		os.WriteFile(p, mu.data, 0o644)
+		var ver *provenance.Verification
+		var verr, derr error
+		if pn := safely(func() {
+			ver, verr = s.Verify(p, p+".prov")
+			_, derr = downloader.VerifyChart(p, env.pub)
+		}); pn != "" {
+			rep.Issue(Issue{Kind: "monitor", Fingerprint: "C20:panic:Verify", What: pn, Case: cs, Seed: seed, Index: 3100 + i})
+			continue
+		}
+		rep.H(fmt.Sprintf("big:%s:accepted=%v", mu.name, verr == nil))
+		if (verr == nil) != (derr == nil) {
+			rep.Issue(Issue{Kind: "monitor", Fingerprint: "C17:verifychart-differs", What: fmt.Sprintf("downloader.VerifyChart (%v) and Signatory.Verify (%v) disagree", derr, verr), Case: cs, Seed: seed, Index: 3100 + i})
+		}
+		if mu.name == "untouched" {
+			if verr != nil {
+				rep.Issue(Issue{Kind: "monitor", Fingerprint: "C17:signed-chart-rejected", What: "a large chart signed and then verified with the matching public key is rejected: " + verr.Error(), Case: cs, Seed: seed, Index: 3100 + i})
+			} else if want := "sha256:" + hex.EncodeToString(sha(orig)); ver.FileHash != want {
+				rep.Issue(Issue{Kind: "monitor", Fingerprint: "C17:file-hash-not-digest", What: "the file hash reported by Verify is not the SHA-256 of the archive's bytes", Case: cs, Model: want, Impl: ver.FileHash, Seed: seed, Index: 3100 + i})
+			}
+			continue
+		}
+		if verr == nil || derr == nil {
+			rep.Issue(Issue{Kind: "monitor", Fingerprint: "C17:accepted-mutant", What: "verification accepted a large archive whose bytes differ from the signed ones (" + mu.name + ")", Case: cs, Seed: seed, Index: 3100 + i})
+		}
 	}
 }
 
@@ -287,6 +357,7 @@ func corrProv(seed uint64, n int, tier string, out string, replay string) {
 	}
 	// the genuine one, each keyring
 	signVerifyVariants(rep, env, seed)
+	bigArchiveCase(rep, env, seed)
 	check("genuine", env.archive, env.archiveName, env.prov, env.ringSigner, 0)
 	check("genuine-both", env.archive, env.archiveName, env.prov, env.ringBoth, 1)
 	check("other-key-only", env.archive, env.archiveName, env.prov, env.ringOther, 2)
